@@ -282,7 +282,14 @@ def compare_prog(c, r, line, mode=Full):
 def compare_all(run, cfg, cases, impl, tag):
     """hashed screen of every case, then the disagreeing cases again in full for the report"""
     terms = [model_parse_term(cfg, c) if c["kind"] == "parse" else model_prog_term(cfg, c) for c in cases]
-    lines = common.coq_eval_lines(tag, HEADER, terms, shard=150, timeout=1200)
+    # the few large terms (sizes family) are dealt round the shards instead of sitting in one
+    nsh = -(-len(terms) // 150)
+    by_cost = sorted(range(len(terms)), key=lambda i: -len(terms[i]))
+    perm = [i for s in range(nsh) for i in by_cost[s::nsh]]
+    plines = common.coq_eval_lines(tag, HEADER, [terms[i] for i in perm], shard=150, timeout=1200)
+    lines = [None] * len(terms)
+    for i, ln in zip(perm, plines):
+        lines[i] = ln
     suspects = []
     for i, (c, r, line) in enumerate(zip(cases, impl, lines)):
         if c["kind"] == "parse":
@@ -653,14 +660,26 @@ def check(run):
             alt_of.append(i)
         alt_cases.append(dict(cases[i], **env))
         alt_of.append(i)
+    n_alt_main = len(alt_cases)
+    for n, c in enumerate(only20):           # the 2.0-only names through every call form as well
+        alt_cases.append(dict(c, tz=zones[n % len(zones)], forms="alt", alt_k=n % 6, hashseed="4242"))
+        alt_of.append(None)
     t1 = time.time()
     impl_alt = run_cases(alt_cases, ordered=True)
     timing["impl_alt_s"] = round(time.time() - t1, 1)
     dis_alt = []
     if lines is not None:
-        for i, c2, r2 in zip(alt_of, alt_cases, impl_alt):
+        for n, (i, c2, r2) in enumerate(zip(alt_of, alt_cases, impl_alt)):
+            if i is None:
+                d = compare_parse(c2, r2, lines20[n - n_alt_main], Hashed) if lines20 else []
+                if d:
+                    dis_alt.append({"case": c2["text"], "version": "2.0", "run": {k: c2[k] for k in ENV_KEYS},
+                                    "differences": [w for w, _, _ in d[:3]]})
+                continue
             d = compare_parse(c2, r2, lines[i], Hashed) if c2["kind"] == "parse" else compare_prog(c2, r2, lines[i], Hashed)
-            same = all(r2.get(k) == impl[i].get(k) for k in ("ast", "str", "m_ast", "re_ast", "re_str")) if c2["version"] == cases[i]["version"] else None
+            same = None
+            if c2["version"] == cases[i]["version"] and not (c2["kind"] == "parse" and "C10-exists-unhandled" in G.features(c2["cst"])):
+                same = all(r2.get(k) == impl[i].get(k) for k in ("ast", "str", "m_ast", "re_ast", "re_str"))
             if d or same is False:
                 dis_alt.append({"case": c2.get("text", c2.get("spec")), "version": c2["version"],
                                 "run": {k: c2[k] for k in ENV_KEYS}, "differences": [w for w, _, _ in d[:3]] or ["differs from the default run"]})
@@ -704,7 +723,7 @@ def check(run):
     problems_alt = [oracle_parse(c, r) if c["kind"] == "parse" else oracle_prog(c, r) for c, r in zip(alt_cases, impl_alt)]
     # only what the default run did not already report: a failure of the same input there is the same failure
     failed_default = {i for i, p in enumerate(problems) if p}
-    problems_alt = [p if (p and (i not in failed_default or c["version"] != cases[i]["version"])) else []
+    problems_alt = [p if (p and (i is None or i not in failed_default or c["version"] != cases[i]["version"])) else []
                     for i, c, p in zip(alt_of, alt_cases, problems_alt)]
     for c in alt_cases:
         if c["kind"] == "prog" and c.get("wg") is None:
